@@ -39,8 +39,10 @@ func filterManifestsToKeep(manifests []releaseutil.Manifest) (keep, remaining []
 		resourcePolicyType = strings.ToLower(strings.TrimSpace(resourcePolicyType))
 		if resourcePolicyType == kube.KeepPolicy {
 			keep = append(keep, m)
+		} else {
+			// any other value of the annotation does not protect the resource
+			remaining = append(remaining, m)
 		}
-
 	}
 	return keep, remaining
 }
